@@ -30,7 +30,13 @@ type enc struct {
 	// golib's own writer output for the same object, when the family can build the golib
 	// object (nil otherwise); only used to cross-check the reference encoder
 	Golib []byte
+	// Alt: drawn in a layout on which golib's own writer and reader disagree (both forms are
+	// generated; set through altForm by the generator): admitted only when consumed completely
+	Alt bool
 }
+
+// altForm is set by a generator that draws one of two rival layouts of the same message
+var altForm bool
 
 type family struct {
 	Name string
